@@ -1,11 +1,20 @@
 //! Self-test of the corpus crate.
 //!
-//! `corpus_selftest [--seeds 1,2,3] [--scales 0,1,2] [--list] [--regen-fixtures]`
+//! `corpus_selftest [--seeds 1,2,3] [--scales 0,1] [--list]`
 //!
 //! For every seed × scale: builds the corpus twice (determinism of bytes), runs every transcript variant of
-//! every item from a plain slice (must end with END, twice identical, deep and non-deep), through a BufRead
-//! source and through small BufReader capacities, replays every write history on a `Vec<u8>` (must equal
-//! `item.bytes`, CRAM: equal transcripts), checks boundaries, and prints an inventory.
+//! every item from a plain slice (must end with END without error elements, twice identical, deep and non-deep,
+//! deep = plain + A elements), through a `Cursor` (BufRead entry point) and small BufReader capacities, plugs in
+//! `vcore::adv::{ChunkedRead, FaultyWrite}`, replays every write history on a `Vec<u8>` (must equal `item.bytes`;
+//! CRAM: equal transcripts; BGZF: also the dropped and the multithreaded writer), checks the boundary walkers
+//! against what the readers saw, and prints an inventory. Behaviour of noodles that differs under adversarial
+//! delivery is C12 / C14 material: it is summarised as `OBSERVED` lines and never fails the self-test.
+//!
+//! Tools: `--regen-fixtures` (rewrite corpus/data/*.cram from the current tree; rebuild afterwards),
+//! `--digest <seed> <scale>` (name, length, FNV of every item), `--dump <seed> <scale> <item> [primary|eager|indexer]
+//! [deep]` (print a transcript; `CORPUS_DUMP_DIR=<dir>` also writes the bytes there), `--probe <kind> <model file>` and
+//! `--probe-each <kind> <model file>` (write a SAM / VCF text model through the writer of `<kind>` and read it back,
+//! whole or record by record — how the known problems were isolated).
 
 use std::{collections::BTreeMap, io::Cursor, process::ExitCode};
 
@@ -50,6 +59,64 @@ fn main() -> ExitCode {
         match args[i].as_str() {
             "--regen-fixtures" => return regen_fixtures(),
             "--list" => list = true,
+            "--smoke" => {
+                // --smoke <seed>: every single-byte flip / truncation of the scale-0 items (BGZF-wrapped kinds: of the
+                // inflated payload, re-sealed), all variants, deep; panics are tallied by location. A location inside
+                // corpus/src would be a defect of this crate; locations in /repo are C15 material.
+                let seed: u64 = args[i + 1].parse().unwrap();
+                static PANICS: std::sync::Mutex<BTreeMap<String, usize>> = std::sync::Mutex::new(BTreeMap::new());
+                std::panic::set_hook(Box::new(|info| {
+                    let loc = info.location().map(|l| format!("{}:{}", l.file(), l.line())).unwrap_or_default();
+                    if std::env::var_os("CORPUS_SMOKE_ECHO").is_some() {
+                        eprintln!("PANIC-AT {loc}");
+                    }
+                    *PANICS.lock().unwrap().entry(loc).or_insert(0) += 1;
+                }));
+                let mut runs = 0usize;
+                let only = std::env::var("CORPUS_SMOKE_ONLY").ok();
+                let from: usize = std::env::var("CORPUS_SMOKE_FROM").ok().and_then(|s| s.parse().ok()).unwrap_or(0);
+                for it in corpus::items(seed, 0) {
+                    if only.as_ref().map(|o| o != &it.name).unwrap_or(false) {
+                        continue;
+                    }
+                    let payload = corpus::inflated_payload(&it);
+                    let base: &[u8] = payload.as_deref().unwrap_or(&it.bytes);
+                    let n = base.len();
+                    for k in from..(2 * n) {
+                        let mut m = base.to_vec();
+                        if k < n {
+                            m[k] ^= if k % 3 == 0 { 0xFF } else if k % 3 == 1 { 0x01 } else { 0x80 };
+                        } else {
+                            m.truncate(k - n);
+                        }
+                        let bytes = if payload.is_some() { vcore::bgzf::reseal(&m, 300) } else { m };
+                        for &variant in it.kind.variants() {
+                            runs += 1;
+                            if let Ok(f) = std::env::var("CORPUS_SMOKE_TRACE") {
+                                let _ = std::fs::write(&f, format!("{} k={k} n={n} {variant:?}\n", it.name));
+                            }
+                            if let Ok(skip) = std::env::var("CORPUS_SMOKE_SKIP") {
+                                if skip.split(',').any(|x| x == it.kind.name()) {
+                                    continue;
+                                }
+                            }
+                            let _ = std::panic::catch_unwind(std::panic::AssertUnwindSafe(|| {
+                                corpus::transcript_read_variant(it.kind, variant, &bytes[..], &it.side, true, 16)
+                            }));
+                        }
+                    }
+                }
+                let _ = std::panic::take_hook();
+                println!("{runs} runs");
+                let mut own = 0;
+                for (loc, n) in PANICS.lock().unwrap().iter() {
+                    println!("PANIC x{n} at {loc}");
+                    if loc.contains("corpus/src") {
+                        own += n;
+                    }
+                }
+                return if own == 0 { ExitCode::SUCCESS } else { ExitCode::FAILURE };
+            }
             "--digest" => {
                 // --digest <seed> <scale>: name, length and FNV-1a of every item (to compare two processes)
                 let seed: u64 = args[i + 1].parse().unwrap();
